@@ -27,6 +27,12 @@ def mutate_tree(g, t):
     if t[0] == "bin" and kind == "dup":
         # a combination whose two operands are equal, against one sharing only one of them
         return ("bin", t[1], t[2], copy.deepcopy(t[2])), "dup-child"
+    if t[0] == "bin" and t[2][0] == "bin" and r.random() < 0.2:
+        # the same leaves and operators, grouped differently: (a o1 b) o2 c  ->  (a o1 c) o2 b
+        return ("bin", t[1], ("bin", t[2][1], t[2][2], t[3]), t[2][3]), "regroup"
+    if t[0] == "bin" and t[3][0] == "bin" and r.random() < 0.1:
+        # a o2 (b o1 c)  ->  b o2 (a o1 c)
+        return ("bin", t[1], t[3][2], ("bin", t[3][1], t[2], t[3][3])), "regroup"
     if t[0] == "bin":
         if kind == "commute":
             return ("bin", t[1], t[3], t[2]), "commuted"
